@@ -1,17 +1,27 @@
+use grin_chain::types::Options;
+use grin_core::core::hash::Hashed;
 use vcommon::forktree::*;
 use vcommon::world::*;
+use vcommon::Scratch;
 fn main() {
 	init_globals(true);
-	let mut cfg = TreeCfg::small(); cfg.n_invalid = 2; cfg.trunk = 5; cfg.branches = 2; cfg.max_depth = 4;
-	let h1 = gen_history(7, &cfg);
-	let h2 = gen_history(7, &cfg);
-	let a: Vec<_> = h1.blocks.iter().map(|b| b.hash).collect();
-	let b: Vec<_> = h2.blocks.iter().map(|b| b.hash).collect();
-	println!("deterministic: {}", a == b);
-	println!("{:?}", &a[..3]);
-	for b in &h1.blocks { for k in b.block.kernels() { k.verify().unwrap(); } }
-	cfg.real_pow = true;
-	let h1 = gen_history(9, &cfg);
-	let h2 = gen_history(9, &cfg);
-	println!("deterministic real pow: {}", h1.blocks.iter().map(|b| b.hash).collect::<Vec<_>>() == h2.blocks.iter().map(|b| b.hash).collect::<Vec<_>>());
+	let sc = Scratch::new("probe2");
+	let mut cfg = TreeCfg::small(); cfg.n_invalid = 0; cfg.trunk = 8; cfg.branches = 0; cfg.max_depth = 1;
+	let mut h = gen_history(7, &cfg);
+	let chain = open_chain(&sc.sub("c"), &h.genesis).unwrap();
+	for b in &h.blocks { chain.process_block(b.block.clone(), Options::SKIP_POW).unwrap(); }
+	let tip = h.blocks.last().unwrap().hash;
+	let honest = h.honest_block(&tip, 1000).block;
+	let mut t = honest.clone();
+	let mut v = t.header.output_root.to_vec(); v[3] ^= 1; t.header.output_root = grin_core::core::hash::Hash::from_vec(&v);
+	println!("tampered: {:?}", chain.process_block(t.clone(), Options::SKIP_POW).map(|x| x.map(|t| t.height)));
+	println!("head {} header_head {}", chain.head().unwrap().last_block_h, chain.header_head().unwrap().last_block_h);
+	println!("validate(true) before honest: {:?}", chain.validate(true));
+	println!("honest: {:?}", chain.process_block(honest.clone(), Options::SKIP_POW).map(|x| x.map(|t| t.height)));
+	println!("head {} header_head {} honest {} tampered {}", chain.head().unwrap().last_block_h, chain.header_head().unwrap().last_block_h, honest.hash(), t.hash());
+	println!("validate(true): {:?}", chain.validate(true));
+	println!("validate(false): {:?}", chain.validate(false));
+	let next = h.honest_block(&honest.hash(), 0).block;
+	println!("next: {:?}", chain.process_block(next, Options::SKIP_POW).map(|x| x.map(|t| t.height)));
+	println!("validate(true): {:?}", chain.validate(true));
 }
